@@ -2,7 +2,7 @@
     Pattern B: [*_ok] are the exact rational checkers evaluated on every run on the implementation's
     published (alpha, rho); the theorems below say what an accepted output satisfies, over the reals.
     Pattern A: facts about the model of weighted_sum / nsupport / predict. *)
-From Coq Require Import List NArith QArith Qreals Reals.
+From Coq Require Import List NArith QArith Qreals Reals Floats.
 From LinfaVerif Require Import Common.Num Common.NdSum Common.QF Common.LDL C13.Model C13.Spec C13.Check C13.Proofs.
 Import ListNotations.
 Local Open Scope R_scope.
@@ -139,6 +139,14 @@ Theorem linear_kernel_is_inner_product : forall a b w x : list R,
   k_linear R_ops a b = Rdot a b /\ weighted_sum_linear R_ops w x = Rdot w x.
 Proof. intros; split; [apply k_linear_R | apply weighted_sum_linear_R]. Qed.
 
+(** the stored hyperplane of the linear kernel is sum_i (sign_i alpha_i) x_i: its product with a sample is
+    sum_i sign_i alpha_i <x_i, x> *)
+Theorem linear_hyperplane_spec : forall (sign : list R) (rows : list (list R)) (alpha x : list R) (d : nat),
+  Forall (fun r => length r = d) rows ->
+  weighted_sum_linear R_ops (hyperplane_of R_ops sign rows alpha d) x
+  = Rsum (map (fun e => fst e * snd (snd e) * Rdot (fst (snd e)) x) (combine sign (combine rows alpha))).
+Proof. exact linear_hyperplane_spec_l. Qed.
+
 (** with an exact zero threshold the number of support vectors is the number of non-zero coefficients *)
 Theorem nsupport_counts_nonzero : forall al : list R,
   nsupport R_ops 0 al = length (filter (fun a => negb (Reqb a 0)) al).
@@ -147,3 +155,11 @@ Proof. exact nsupport_counts_nonzero_l. Qed.
 (** the predicted label is the sign of the decision value weighted_sum - rho *)
 Theorem label_is_sign : forall ws rho : R, label_of R_ops ws rho = true <-> 0 <= ws - rho.
 Proof. exact label_is_sign_l. Qed.
+
+(** known finding F32 in the model: nu-SVR as implemented (nu_constraint = false) ignores nu - on four points of
+    the line y = 2x with nu = 0.1, c = 1 the fit publishes (0, -1, 0, 1), sum |b_i| = 2 > c nu n = 0.4.
+    (No [_outside_known] companion: for pattern B there is no theorem about the solver's output for all inputs;
+    outside the known class the conditions are certified per run by the checkers above.) *)
+Theorem nusvr_nu_constraint_refuted :
+  exists m, exNu_fit = Fitted m /\ nu_constraint_holds 0x1.999999999999ap-4%float 1%float 4 m = false.
+Proof. exact nusvr_refuted_l. Qed.
